@@ -141,10 +141,16 @@ def gen_project(rng, stream="structured", n_tasks=None, facilities=None, fs_only
                 w["mainwp"] = rng.randrange(len(wps))
             if rng.random() < 0.2:
                 w["abs"] = sorted(set(rng.randrange(0, 12) for _ in range(rng.choice([1, 2, 3]))))
+                if rng.random() < 0.35:          # any order, repeated steps
+                    w["abs"] = w["abs"] + [rng.choice(w["abs"])]
+                    rng.shuffle(w["abs"])
     for wp in wps:
         for f in wp["facs"]:
             if rng.random() < 0.15:
                 f["abs"] = sorted(set(rng.randrange(0, 12) for _ in range(rng.choice([1, 2]))))
+                if rng.random() < 0.35:
+                    f["abs"] = f["abs"] + [rng.choice(f["abs"])]
+                    rng.shuffle(f["abs"])
     # --- task targeting
     for i, t in enumerate(tasks):
         r = rng.random()
@@ -157,6 +163,9 @@ def gen_project(rng, stream="structured", n_tasks=None, facilities=None, fs_only
                 t["wps"] = rng.sample(range(len(wps)), rng.choice([1, 1, min(2, len(wps))]))
             if not t["auto"] and rng.random() < 0.7:
                 t["need_fac"] = True
+        elif t["comp"] is None and wps and rng.random() < 0.15:
+            # registered at a workplace although not bound to a component
+            t["wps"] = rng.sample(range(len(wps)), 1)
         if not t["auto"] and rng.random() < 0.1 and nwork:
             t["fixw"] = sorted(rng.sample(range(nwork), rng.choice([1, min(2, nwork)])))
         elif not t["auto"] and rng.random() < 0.03:
@@ -178,6 +187,7 @@ def gen_project(rng, stream="structured", n_tasks=None, facilities=None, fs_only
         if rng.random() < 0.4:
             wps[i]["parent"] = rng.randrange(i)
     case = {"tasks": tasks, "edges": edges, "comps": comps, "teams": teams, "wps": wps, "unit": 60,
+            "int_deps": rng.random() < 0.12, "same_ids": rng.random() < 0.1,
             "rank": rng.sample(range(8), 8)[:nt] if nt <= 8 else None,
             "crank": rng.sample(range(8), 8)[:nc] if nc <= 8 else None}
     return case
@@ -357,3 +367,39 @@ def gen_autoabs_project(rng):
     nt = len(tasks)
     return {"tasks": tasks, "edges": edges, "comps": comps, "teams": [{"workers": ws}], "wps": wps, "unit": 60,
             "rank": rng.sample(range(8), 8)[:nt], "crank": [0], "_ready_step": w0}
+
+
+def usage_variants(rng, c, p=0.05):
+    """ways of wiring a model that the public API allows and that the simulation reads from one side
+    only; the extracted model takes the two sides of every relation separately, so nothing has to be
+    assumed about them: (i) a dependency declared on the successor's side only, (ii) a component
+    listing a task that does not point back, (iii) workplace input lists without the mirrored output
+    lists.  Only for single forward runs (backward_simulate swaps the two sides)."""
+    nt = len(c["tasks"])
+    if nt >= 2 and rng.random() < p and "edges_in" not in c:
+        order, indeg = [], [0] * nt
+        for (a, b, k) in c["edges"]:
+            indeg[b] += 1
+        todo = [i for i in range(nt) if indeg[i] == 0]
+        while todo:
+            x = todo.pop(0)
+            order.append(x)
+            for (a, b, k) in c["edges"]:
+                if a == x:
+                    indeg[b] -= 1
+                    if indeg[b] == 0:
+                        todo.append(b)
+        if len(order) == nt:
+            pos = {t: n for n, t in enumerate(order)}
+            a, b = rng.sample(range(nt), 2)
+            if pos[a] > pos[b]:
+                a, b = b, a
+            if not any(x == a and y == b for (x, y, k) in c["edges"]):
+                c["edges_in"] = [[a, b, rng.choice([0, 1, 2, 3])]]
+    if c.get("comps") and rng.random() < p and not any(x.get("extra_tasks") for x in c["comps"]):
+        ci = rng.randrange(len(c["comps"]))
+        cand = [i for i, t in enumerate(c["tasks"]) if t.get("comp") != ci]
+        if cand:
+            c["comps"][ci]["extra_tasks"] = [rng.choice(cand)]
+    if len(c.get("wps", [])) >= 2 and rng.random() < p:
+        c["wp_oneside"] = True
